@@ -342,7 +342,13 @@ impl<const N: usize> EventsInner<N> {
                 if event_number == 1 {
                     EVENT_NUMBER_EPOCH_SIZE
                 } else {
-                    event_number.wrapping_add(EVENT_NUMBER_EPOCH_SIZE).max(1)
+                    // The last epoch of the range ends where the numbers wrap
+                    // around - to 1, which is an epoch start again. (A wrapped
+                    // sum would be no epoch start: resuming there would hand out
+                    // numbers with nothing stored to cover them.)
+                    event_number
+                        .checked_add(EVENT_NUMBER_EPOCH_SIZE)
+                        .unwrap_or(1)
                 },
             )?;
         }
